@@ -76,9 +76,10 @@ func cmdVerify(args []string) {
 	var obls []*Obligation
 	var vcs []*FnVC
 	for _, f := range fns {
-		vc := eng.buildVC(f)
-		vcs = append(vcs, vc)
-		obls = append(obls, vc.obls...)
+		for _, vc := range eng.buildAll(f) {
+			vcs = append(vcs, vc)
+			obls = append(obls, vc.obls...)
+		}
 	}
 	t1 := time.Now()
 	dischargeAll(obls, *timeout, *par, false)
